@@ -145,6 +145,15 @@ func genC04(g *prng.R) c04Case {
 			}
 		}
 		sc.Cfg.OnFollow = g.Intn(3)
+		if g.Chance(1, 3) {
+			// descriptive members of every literal kind: the answer embeds
+			// the Follow as it was received
+			act["summaryMap"] = M{"en": "please", "fr": "s'il vous plait"}
+			act["published"] = "2021-03-04T05:06:07Z"
+			if g.Bool() {
+				act["nameMap"] = M{"en": "a follow"}
+			}
+		}
 		fcol := M{"@context": AS, "type": "Collection", "id": alice() + "/followers"}
 		switch g.Intn(4) {
 		case 0: // nobody follows yet: the collection has no member property
@@ -422,6 +431,11 @@ func genC04(g *prng.R) c04Case {
 		}
 	}
 	sc.Requests = []sim.Request{sim.PostInboxReq(aliceIn(), withCtx(act))}
+	if typ == "Follow" && sc.Cfg.OnFollow != 0 && g.Chance(1, 6) {
+		// the same Follow under an aliased vocabulary
+		sc.Requests[0].Body = aliasDoc(act)
+		cs.Info["aliased_context"] = true
+	}
 	cs.Info["activity_id"] = actID
 	return cs
 }
